@@ -61,3 +61,27 @@ def test_t4_subprocess():
         assert os.path.exists(os.path.join(home, 'xdg/Trash/files/a'))
     finally:
         shutil.rmtree(d, ignore_errors=True)
+
+
+def test_t1_transparency_on_check_cases():
+    """T1 on real check cases: single-volume cases of several checks give the same verdict and outcome class with
+    and without the os-level hooks (VT_PLAIN=1 turns the hooks off for worlds whose mount table is just '/')"""
+    import importlib
+    import random
+    picked = 0
+    for name in ('c06', 'c13'):      # checks whose worlds have the single mount '/' (plain mode has no virtual mounts)
+        mod = importlib.import_module('vt.checks.' + name)
+        cases = mod.cases('quick')
+        rnd = random.Random(7)
+        for c in rnd.sample(cases, 40):
+            os.environ.pop('VT_PLAIN', None)
+            a = mod.run_case(dict(c))
+            os.environ['VT_PLAIN'] = '1'
+            try:
+                b = mod.run_case(dict(c))
+            finally:
+                os.environ.pop('VT_PLAIN', None)
+            assert (a.get('verdict'), a.get('klass'), a.get('sig')) == (b.get('verdict'), b.get('klass'), b.get('sig')), \
+                'T1 mismatch in %s case %r:\nhooked=%r\nplain =%r' % (name, c, a, b)
+            picked += 1
+    print('T1: %d check cases agree between hooked and plain execution' % picked)
